@@ -509,20 +509,20 @@ class FunctionParser(BaseParser):
             else:
                 optional_name = k
 
-    def resolve_forward_refs(self, local_vars=None, ignore_errors: bool = True):
-        resolved = super().resolve_forward_refs(
-            local_vars=local_vars, ignore_errors=ignore_errors
-        )
-        if resolved:
-            if self.position_type:
-                self.position_type, r = resolve_forward_type(self.position_type)
-            if self.return_type:
-                late = isinstance(self.return_type, ForwardRef)
-                self.return_type, r = resolve_forward_type(self.return_type)
-                if late and r:
-                    # the whole return annotation was a string ('Iterator[Item]'):
-                    # only now the yield / send / return types of a generator can be told
-                    self.generate_generator_types()
+    def resolve_forward_types(self):
+        if self.position_type:
+            self.position_type, r = resolve_forward_type(self.position_type)
+        if self.return_type:
+            late = isinstance(self.return_type, ForwardRef)
+            self.return_type, r = resolve_forward_type(self.return_type)
+            if late and r:
+                # the whole return annotation was a string ('Iterator[Item]'):
+                # only now the yield / send / return types of a generator can be told
+                self.generate_generator_types()
+        for name in ("generator_yield_type", "generator_send_type", "generator_return_type"):
+            t = getattr(self, name)
+            if t is not None:
+                setattr(self, name, resolve_forward_type(t)[0])
 
     def wrap(
         self,
